@@ -19,7 +19,7 @@ def run(ctx):
                     for first in range(NR):
                         cells.append(('m%d_nb%d_al%d_len2_first%d' % (mi, pn, pa, first),
                                       ['len(rows) == 2', 'rows[0] == %d' % first] + base))
-        if T:
+        if T and mi == 0:          # 3-route tables for GET (841 cells); the other methods stay at 2 routes + all pre-states
             for first in range(NR):
                 for second in range(NR):
                     cells.append(('m%d_len3_first%d_%d' % (mi, first, second),
@@ -46,7 +46,7 @@ def run(ctx):
     res = run_obligations('C06', 'harness.c06', obs, ctx.tier)
     res.functions_encoded += ['clastic.application.Application.dispatch', 'DispatchState.*', 'NullRoute.handle_sentinel_condition (real bound null route)',
                               'BoundRoute.match_method', 'Route.__init__ (method normalisation)', 'errors.MethodNotAllowed.__init__']
-    res.bounds.update(dict(table='<= 2 stub routes (quick: 2-route tables from the empty pre-state only; thorough: 2 with all pre-states, 3 from the empty pre-state) + null route', row='no-match | 4 method sets x 7 behaviours',
+    res.bounds.update(dict(table='<= 2 stub routes (quick: 2-route tables from the empty pre-state only; thorough: 2 with all pre-states, 3 from the empty pre-state for GET) + null route', row='no-match | 4 method sets x 7 behaviours',
                            request_methods="GET, HEAD, pOsT, PUT", pre_state='0/1 earlier non-breaking error x 0/1 earlier allowed-method set',
                            method_text='<= 2 (thorough 3) chars over {G g E e T t P x}'))
     res.outside += ['real pattern matching inside dispatch (C05; here a symbolic bit)', 'error body rendering (C09)', 'tables longer than the bound '
